@@ -348,3 +348,14 @@ def c01(r):
     obs = r.conform(scs, workers=16, tmo=60)
     texts = sum(len(s['steps']) for s in scs)
     r.extra['texts'] = texts
+
+
+@prop('C10')
+def c10(r):
+    r.assumptions += ['pinned results only for in-range arguments (0-based begin, count >= 0); elsewhere: any BLOC outcome, a returned string must be a contiguous part of the argument',
+                      'isnum(s) <=> num(s) succeeds is checked as a relation between the two recorded evaluations; a numeral followed by junk is accepted by both (consistent)',
+                      'tokenize is checked for totality only']
+    scs = r.gen('Gen_C10', 'Gen_C10.cfg', timeout=3000)
+    r.exhaustive = True
+    r.extra['bounds'] = 'all strings of length <= 3 (quick) / 4 over {blank,a,A,7,comma,quote,z} x position lattice {MIN,-1,0,1,n-1,n,n+1,MAX,null}; numeric-syntax strings of length <= 3/4 over {blank,+,-,0,9,.,e,x,a}; conversion lattice'
+    r.conform(scs, workers=16)
